@@ -16,6 +16,10 @@ type Preempt struct {
 // more statements than the step budget allows.
 type BudgetExceeded struct{ Steps uint64 }
 
+// Deadlocked is the panic value used to unwind an operation that waits for a
+// lock no simulated caller can release any more.
+type Deadlocked struct{ Why string }
+
 const (
 	stRunnable = iota
 	stBlocked
@@ -39,6 +43,8 @@ type Task struct {
 	preIdx  int
 	OpIndex int
 	OpKind  string
+
+	spinStreak int // consecutive waits without a single ordinary statement
 }
 
 // Event is one entry of the (optional) readable schedule trace.
@@ -70,6 +76,7 @@ type Sim struct {
 	Steps    uint64
 	Switches uint64
 	Preempts uint64
+	Spins    uint64
 	Budget   uint64
 	noYield  int
 	Deadlock bool
@@ -167,6 +174,8 @@ func (s *Sim) Hook(site uint32) {
 		}
 		return
 	}
+	spin := site&0x80000000 != 0
+	site &^= 0x80000000
 	s.Steps++
 	if int(site) < len(s.SiteHits) {
 		s.SiteHits[site]++
@@ -176,6 +185,56 @@ func (s *Sim) Hook(site uint32) {
 	if t.opStep >= t.nextAt {
 		s.slow(t, site)
 	}
+	if !spin {
+		t.spinStreak = 0
+		return
+	}
+	// The task waits for another one (rewritten Lock, empty loop body): let
+	// the others run, round-robin. If nobody else is alive, or every live
+	// task has been doing nothing but waiting, no one can ever end the wait.
+	t.spinStreak++
+	if s.noYield > 0 {
+		if t.spinStreak > 1000 {
+			panic(Deadlocked{"waiting for a lock inside a section that must not be left (sync.Once)"})
+		}
+		return
+	}
+	if t == s.ctl {
+		if t.spinStreak > 3 {
+			panic(Deadlocked{"a single caller waits for a lock that nobody holds any more (taken twice, or never released by an earlier call)"})
+		}
+		return
+	}
+	next := s.nthOther(t, 0)
+	if next == nil {
+		if t.spinStreak > 3 {
+			panic(Deadlocked{"the last running caller waits for a lock that was never released"})
+		}
+		return
+	}
+	if t.spinStreak > 3 && s.allSpinning() {
+		for _, o := range s.tasks {
+			o.spinStreak = 0
+		}
+		panic(Deadlocked{"every simulated caller waits for a lock another one holds (lock cycle)"})
+	}
+	s.Spins++
+	s.switchTo(next, 'l', site)
+}
+
+// allSpinning reports whether every live task has only been waiting lately.
+//
+//go:norace
+func (s *Sim) allSpinning() bool {
+	for _, o := range s.tasks {
+		if o.state == stDone {
+			continue
+		}
+		if o.state == stBlocked || o.spinStreak < 3 {
+			return false
+		}
+	}
+	return true
 }
 
 //go:norace
